@@ -224,7 +224,7 @@ func TestC16(t *testing.T) {
 	if !lib.Thorough() {
 		nk = 5
 	}
-	rep.Rule = fmt.Sprintf("(a) all 3^%d states over keys %v (absent/d1/d2) on afero OsFs and MemMapFs: full observer battery in every state (Get/Has/GetAttr of every key, Keys, KeysPrefix x 7 prefixes x 2 delimiters x every page size, paginated) and every transition (Put excl/overwrite of each key and datum, Delete of each key, an abandoned first listing page followed by a mutation and a fresh listing) compared with a map model; (b) 2..3 concurrent exclusive Puts of different bytes to one key, afero calls gated, all interleavings; (c) one Put (overwrite with a shorter / longer value, or exclusive create; with and without the store's lock option) concurrent with one Get+read of the same key through the same store object, afero open/read/write/close calls gated, all interleavings: the read returns the previous or the new object, never anything else; plus, sequentially and with/without the store's lock option: Get, overwrite, then consume the reader; distinct = distinct (backend,state)", nk, c16keys[:nk])
+	rep.Rule = fmt.Sprintf("(a) all 3^%d states over keys %v (absent/d1/d2) on afero OsFs and MemMapFs: full observer battery in every state (Get/Has/GetAttr of every key, Keys, KeysPrefix x 7 prefixes x 2 delimiters x every page size, paginated) and every transition (Put excl/overwrite of each key and datum, Delete of each key and of each name that is a proper path prefix of keys, an abandoned first listing page followed by a mutation and a fresh listing) compared with a map model; (b) 2..3 concurrent exclusive Puts of different bytes to one key, afero calls gated, all interleavings; (c) one Put (overwrite with a shorter / longer value, or exclusive create; with and without the store's lock option) concurrent with one Get+read of the same key through the same store object, afero open/read/write/close calls gated, all interleavings: the read returns the previous or the new object, never anything else; plus, sequentially and with/without the store's lock option: Get, overwrite, then consume the reader; distinct = distinct (backend,state)", nk, c16keys[:nk])
 	total := 1
 	for i := 0; i < nk; i++ {
 		total *= 3
@@ -303,6 +303,14 @@ func TestC16(t *testing.T) {
 						return "Delete failed: " + err.Error()
 					}
 					delete(m, k)
+					return ""
+				}})
+			}
+			// deleting a name that is not a key but a path-component prefix of keys (a "directory"): nothing may change
+			for _, dname := range []string{"x", "x/b", "x.y", "xy", "nothing-here"} {
+				dname := dname
+				ops = append(ops, op{fmt.Sprintf("Delete(%s)", dname), func(st storage.Store, m map[string][]byte) string {
+					_ = st.Delete(ctx, dname) // an error or a no-op are both fine for a key that does not exist
 					return ""
 				}})
 			}
